@@ -36,6 +36,7 @@ class Run:
         self.nontrivial = set()
         self.samples = []
         self.rejections = []          # (trace, rejection-list)
+        self.drift = []               # Layer B (mechanism model) disagreements with the code
         self.violations = []          # replay paths
         self.known = []               # KNOWN-FINDING lines
         self.notes = []
@@ -109,6 +110,9 @@ class Run:
         self.extra["validate_s"] = round(self.extra.get("validate_s", 0) + time.time() - t, 1)
         by = {}
         for r in rej:
+            if r["clause"].startswith("drift."):      # Layer B disagrees with the code: model drift, not a verdict
+                self.drift.append(r)
+                continue
             by.setdefault(r["id"], []).append(r)
         return by
 
@@ -165,6 +169,8 @@ class Run:
             "exhaustive": self.exhaustive,
             "tlc_runs": self.mc_runs,
             "known_findings_reported": self.known,
+            "layer_b": {"status": "drifted" if self.drift else "bound (no disagreement on this run)",
+                        "disagreements": len(self.drift), "examples": self.drift[:3]},
             "notes": self.notes,
         }
         cov.update(self.extra)
@@ -176,6 +182,10 @@ class Run:
             json.dump(ev, f, indent=1)
         shutil.rmtree(self.scratch, ignore_errors=True)
         self._write_violations()
+        if self.drift:
+            kinds = sorted({d["clause"] for d in self.drift})
+            print(f"MODEL-DRIFT: {len(self.drift)} traces disagree with the mechanism model (Layer B) {kinds}; "
+                  f"this is not a verdict on the property")
         if len(self.violations) > 5:
             print(f"... {len(self.violations)} violating cases in total, replays under /verif/replays/{self.prop}/")
         print(f"{self.prop} {self.tier}: states={self.states} cases={self.cases} "
